@@ -319,6 +319,9 @@ def gen_compress_table():
     out.append("")
     # handle_single_key_data_cmd error mapping
     body = " ".join(fn_body(t, "handle_single_key_data_cmd", p).split())
+    if not re.search(r"let compress_res = if cmd_ctx\.get_redirection_times\(\)\.is_some\(\) \{ Ok\(\(\)\) \} else \{ "
+                     r"self\.compressor\.try_compressing_cmd_ctx\(&mut cmd_ctx\) \}; match compress_res \{", body):
+        raise ExtractError(f"{p}: handle_single_key_data_cmd: the redirection-mark guard around the compressor changed")
     if not re.search(r"Ok\(\(\)\) \| Err\(CompressionError::UnsupportedCmdType\) \| Err\(CompressionError::Disabled\) => \(\)", body):
         raise ExtractError(f"{p}: handle_single_key_data_cmd: pass-through arm changed")
     m1 = re.search(r'Err\(CompressionError::InvalidRequest\) \| Err\(CompressionError::InvalidResp\) => \{ return cmd_ctx '
@@ -335,6 +338,14 @@ def gen_compress_table():
         if len(lits) != 1:
             raise ExtractError(f"{p}: {fn}: expected one arity error literal, got {sorted(lits)}")
         out.append(f"def {name} : List UInt8 := {lean_bytes(rust_bytes_literal(lits.pop()))}  -- {p} {fn}")
+    b = " ".join(fn_body(t, "handle_msetnx", p).split())
+    if not re.search(r"let \(mut sub_cmd_ctx, fut\) = factory\.create_with_ctx\(cmd_ctx\.get_context\(\), resp\); "
+                     r"if let Some\(times\) = cmd_ctx\.get_redirection_times\(\) \{ sub_cmd_ctx\.set_redirection_times\(times\); \} "
+                     r"futs\.push\(fut\); self\.handle_single_key_data_cmd\(sub_cmd_ctx\);", b):
+        raise ExtractError(f"{p}: handle_msetnx: sub-commands no longer inherit the redirection mark")
+    for fn in ("handle_mget", "handle_mset"):
+        if "set_redirection_times" in fn_body(t, fn, p):
+            raise ExtractError(f"{p}: {fn}: sub-commands now carry a redirection mark (model: none)")
     b = fn_body(t, "handle_umforward", p)
     for lit, name in (("invalid redirection times", "ERR_UMFORWARD_TIMES"), ("missing forwarded command", "ERR_UMFORWARD_MISSING")):
         if f'b"{lit}"' not in b:
@@ -362,7 +373,7 @@ def gen_compress_table():
     p = "src/proxy/manager.rs"
     t = strip_comments(src(p))
     body = " ".join(fn_body(t, "send_cmd_ctx_to_remote_directly", p).split())
-    if not (".get_redirection_times() .or_else(|| max_redirections.map(|n| n.get() - 1))" in body
+    if not (".get_redirection_times() .or_else(|| max_redirections.map(|n| n.get() - 1)) .or(Some(usize::MAX));" in body
             and "times.checked_sub(1)" in body
             and 'wrap_cmd(vec![b"UMFORWARD".to_vec(), times.to_string().into_bytes()])' in body):
         raise ExtractError(f"{p}: send_cmd_ctx_to_remote_directly: shape changed")
